@@ -34,7 +34,7 @@ T = {
         ref="4/C04",
     ),
     "C05": dict(
-        technique="static analysis: CFG reachability + def-use on the final sampling loop, sympy term identity for mean / standard error, slice-offset agreement, guard analysis, provenance of the returned SD, store-group coherence",
+        technique="static analysis: CFG reachability + def-use on the final sampling loop, sympy term identity for mean / standard error, slice-offset agreement, guard analysis, provenance of the returned SD, store-group coherence, noise-mode read discipline",
         text="Decides the structure of the final estimate: samples are taken at the very u that becomes x with the no-record flag, nothing evaluates after them, fval/fsd are mean / std/sqrt(n) of yval_vec, argmin over a[k:] is offset by k, and the noise test raises the level iff |y - y'| > tol_noise; the final re-sampling is guarded by the noisy mode and noise_final_samples > 0 only (known finding: an extra poll_iteration > 0 guard); the SD an evaluation returns is the target's own; the incumbent tuple stays coherent (shared with C19-R1). Numeric values are not decided.",
         note="Trusted: np.mean/np.std semantics.",
         ref="4/C05",
@@ -64,8 +64,8 @@ T = {
         ref="4/C10",
     ),
     "C11": dict(
-        technique="static analysis: term algebra (sympy normal forms) on the transform lambdas, clamp recogniser, mask complement check",
-        text="Decides algebraic/structural clauses: both directions end in a two-sided clamp, ginv(g(x)) = x, g(plb) = -1, g(pub) = +1, positive slope, complementary masks shared by g and ginv, and the log rule (all four bounds > 0 and pub/plb >= 10 on undetermined coordinates only). The 1e-9 accuracy is numeric and not decided.",
+        technique="static analysis: term algebra (sympy normal forms) on the transform lambdas, clamp recogniser, mask complement check, form check of the masking helper",
+        text="Decides algebraic/structural clauses: both directions end in a two-sided clamp, ginv(g(x)) = x, g(plb) = -1, g(pub) = +1, positive slope, complementary masks shared by g and ginv, the log rule (all four bounds > 0 and pub/plb >= 10 on undetermined coordinates only), and that the masking helper selects by assignment (never v * mask, which is NaN for infinite entries). The 1e-9 accuracy is numeric and not decided.",
         note="Trusted: sympy simplification; exp/log are mutually inverse on positive reals.",
         ref="4/C11",
     ),
@@ -76,44 +76,44 @@ T = {
         ref="4/C12",
     ),
     "C13": dict(
-        technique="static analysis: store-site enumeration with guard normal forms, ini-file constant reader",
-        text="Decides the complete set of stores to the poll mesh exponent (+1 capped on success, -1 otherwise, a further -1 under acceleration and stall, one option-gated site dead under shipped defaults), that mesh size is multiplier**exponent with constants from the ini files, that the search exponent is min(., m*k - n) hence <= m, and the tol_mesh message guard.",
+        technique="static analysis: store-site enumeration with guard normal forms, ini-file constant reader, interprocedural must-dataflow (gen/kill method summaries, flag-conditional facts) for the coherence of the mesh-size slots with their exponents",
+        text="Decides the complete set of stores to the poll mesh exponent (+1 capped on success, -1 otherwise, a further -1 under acceleration and stall, one option-gated site dead under shipped defaults), that mesh size is multiplier**exponent with constants from the ini files, that the search exponent is min(., m*k - n) hence <= m, the tol_mesh message guard, and that every read of a mesh-size slot sees multiplier ** exponent computed after the last store to the exponent on all paths.",
         note="Trusted: configparser reading of the two ini files as re-implemented by the ini reader.",
         ref="4/C13",
     ),
     "C14": dict(
-        technique="static analysis: finite-set abstract evaluation of the random draws, CFG post-dominance in the poll loop, term agreement of the scale round trip",
-        text="Decides that the generator returns [M; -M] with M strictly triangular plus a non-zero diagonal followed only by rank-preserving operations, entries bounded by the mesh ratio, the poll scale divided out and multiplied back by the same expression, the polled row deleted and the counter advanced on every evaluating path, and the loop bounded by 2*D.",
+        technique="static analysis: finite-set abstract evaluation of the random draws, CFG post-dominance in the poll loop, term agreement of the scale round trip, mesh-size coherence dataflow in the poll step",
+        text="Decides that the generator returns [M; -M] with M strictly triangular plus a non-zero diagonal followed only by rank-preserving operations, entries bounded by the mesh ratio, the poll scale divided out and multiplied back by the same expression, the polled row deleted and the counter advanced on every evaluating path, the loop bounded by 2*D, and the mesh sizes read by the poll step are current.",
         note="Trusted: randint(1,3) in {1,2}; tril/triu semantics; row permutation and transpose preserve rank.",
         ref="4/C14",
     ),
     "C15": dict(
-        technique="static analysis: unit-tag (SD/VAR) dataflow into every s2 sink, who-may-write the GP training triple, parallel-array selector consistency, may-alias analysis of the retried fit, sympy identity for the LCB schedule",
-        text="Decides SD->variance unit discipline at every sink of gp.s2 / fit(s2), that the training triple is written only from the neighbour selector / incremental add, that U, Y, S are indexed by one ascending-distance selector with min/max clamps, and that the acquisition is mean - sqrt(beta_t)*sd with the documented schedule.",
+        technique="static analysis: unit-tag (SD/VAR) dataflow into every s2 sink, who-may-write the GP training triple, parallel-array selector consistency, may-alias analysis of the retried fit, sympy identity for the LCB schedule, normal form of the log high-water mark, must-dataflow of the re-centring request after incumbent moves",
+        text="Decides SD->variance unit discipline at every sink of gp.s2 / fit(s2), that the training triple is written only from the neighbour selector / incremental add, that U, Y, S are indexed by one ascending-distance selector with min/max clamps, that the acquisition is mean - sqrt(beta_t)*sd with the documented schedule, that the high-water mark the selector slices the log with advances per recorded row bounded only by the live capacity, and that every incumbent move leaves the re-centring request set (or returns a surrogate fitted around the new incumbent).",
         note="Trusted: gpyreg's s2 is a variance; argsort ascending.",
         ref="4/C15",
     ),
     "C16": dict(
-        technique="static analysis: handler analysis of every GP.fit call site, retry-loop bound, path-sensitive parallel-array consistency inside the retry, sibling agreement of fallback shapes",
-        text="Decides that every hyperparameter fit is inside a retry loop under a non-re-raising LinAlgError handler admitting at least five attempts, that X, Y and the noise vector passed to the next fit are filtered through the same mask, and that the posterior update has a fallback.",
+        technique="static analysis: handler analysis of every GP.fit call site, retry-loop bound, path-sensitive parallel-array consistency inside the retry, sibling agreement of fallback shapes, stored-noise consistency against gpyreg's fit contract",
+        text="Decides that every hyperparameter fit is inside a retry loop under a non-re-raising LinAlgError handler admitting at least five attempts, that X, Y and the noise vector passed to the next fit are filtered through the same mask (including the stored vector fit() falls back to when its argument is None), and that the posterior update has a fallback.",
         note="Ten consecutive failures (res unbound) are outside the property's quantifier and reported as a diagnostic.",
         ref="4/C16",
     ),
     "C17": dict(
         technique="static analysis: pipeline-order dataflow in the candidate filter, row-set abstract interpretation of the removal idiom",
-        text="Decides that box stage, de-duplication, evaluated-row removal and constraint stage are present in dataflow order on all paths with the right polarity, that the removal idiom is a set difference, and that only filtered rows reach the target; the only no-record repeat in deterministic mode is the noise test.",
+        text="Decides that box stage, de-duplication, evaluated-row removal and constraint stage are present in dataflow order on all paths with the right polarity, that the removal idiom is a set difference, and that only rows that passed the box, removal and constraint stages reach the target; the only no-record repeat in deterministic mode is the noise test.",
         note="Known finding (recorded, not repaired): the removal idiom keeps evaluated rows; the existing test pins that behaviour.",
         ref="4/C17",
     ),
     "C18": dict(
-        technique="static analysis: min-selection idiom check, lock-step accumulation, CFG (one logger call outside loops), sympy affine form of the hedge probabilities",
-        text="Decides ascending argsort with index 0 / argmin on the same array, lock-step accumulation of candidates and values, acquisition evaluated on filtered rows only, one target call per search step outside any loop, and hedge probabilities affine in a normalised vector with a + n*b = 1, b = gamma, a >= 0. The rank-selection mask combinatorics are not decided.",
+        technique="static analysis: min-selection idiom check, lock-step accumulation, CFG (one logger call outside loops), sympy affine form of the hedge probabilities, guard check of the hedge reward (def-use closure from GP predictions), mesh-size coherence dataflow for the search mesh",
+        text="Decides ascending argsort with index 0 / argmin on the same array, lock-step accumulation of candidates and values, acquisition evaluated on filtered rows only, one target call per search step outside any loop, and hedge probabilities affine in a normalised vector with a + n*b = 1, b = gamma, a >= 0, hedge rewards finite (GP-predicted quantities only under isfinite guards), search-mesh slots current where read. The rank-selection mask combinatorics are not decided.",
         note="Trusted: np.argsort ascending; ini constants gamma=0.125, n=2.",
         ref="4/C18",
     ),
     "C19": dict(
-        technique="static analysis: store-group (incumbent tuple) coherence, record-block index agreement, deep-copy setter check, result source table",
-        text="Decides that value/estimate/SD and the point the next iteration reads move together from the same history index, that one record block with one index records each iteration with x = inverse(u), that history/result setters deep-copy and reject unknown keys, and that result fields read their designated state locations.",
+        technique="static analysis: store-group (incumbent tuple) coherence, record-block index agreement, deep-copy setter check, result source table, must-definition dataflow of the result fields over exceptional edges",
+        text="Decides that value/estimate/SD and the point the next iteration reads move together from the same history index, that one record block with one index records each iteration with x = inverse(u), that history/result setters deep-copy and reject unknown keys, that result fields read their designated state locations, and that the field set is the same on every path.",
         note="Trusted: copy.deepcopy semantics.",
         ref="4/C19",
     ),
